@@ -144,14 +144,16 @@ func evalC01(c *Ctx, cs *Case) {
 					entry = "OutputFromMarkdown+NoIter"
 					// a *strings.Builder as writer (the other paths use a recorder and a *bytes.Buffer)
 					var sbw strings.Builder
+					Poison(doc, append(append([]gtree.Option{}, bopts...), gtree.WithNoUseIterOfSimpleOutput())...)
 					o = Guard(func() error {
-						return gtree.OutputFromMarkdown(&sbw, strings.NewReader(doc), append(append([]gtree.Option{}, bopts...), gtree.WithNoUseIterOfSimpleOutput())...)
+						return gtree.OutputFromMarkdown(&sbw, MDReader(doc), append(append([]gtree.Option{}, bopts...), gtree.WithNoUseIterOfSimpleOutput())...)
 					})
 					o.Out = []byte(sbw.String())
 				case 2:
 					entry = "Output(alias)"
 					var buf bytes.Buffer
-					o = Guard(func() error { return gtree.Output(&buf, strings.NewReader(doc), bopts...) })
+					Poison(doc, bopts...)
+					o = Guard(func() error { return gtree.Output(&buf, MDReader(doc), bopts...) })
 					o.Out = buf.Bytes()
 				}
 				c.Eval(gen.HashString(spkey+strconv.Itoa(bi)+entry), nontrivial)
